@@ -599,15 +599,28 @@ def run_atomicity(cases):
         return json.dumps([pyimpl.sexpr(rc(n).definition) for n in ("n1", "n2", "n3")])
     import pyimpl
     ref0 = ref_graph()
+    import gc
     for c in cases:
+        # the valid text is loaded first, as a string object of its own that is dropped again (an editor session: load, edit, load):
+        # the corrupted text that follows often has the same length and can land where the valid one was
+        if c["route"] != "create":
+            try:
+                v_ = "".join([ch for ch in c["valid_text"]])
+                type("V", (P.Rule,), {}).load_grammar(v_, strict=(c["route"] == "load"))
+            except Exception:  # noqa: BLE001
+                pass
+            v_ = None
+            gc.collect()
         cls = type("A", (P.Rule,), {})
         before = {k: (id(o), id(getattr(o, "definition", None))) for k, o in P.Rule._obj_map.items()}
         nbefore = len(P.Rule._obj_map)
         try:
+            t_ = "".join([ch for ch in c["text"]])          # a fresh object, dropped right after the call
             if c["route"] == "create":
-                cls.create(c["text"])
+                cls.create(t_)
             else:
-                cls.load_grammar(c["text"], strict=(c["route"] == "load"))
+                cls.load_grammar(t_, strict=(c["route"] == "load"))
+            t_ = None
             st = "OK"
         except P.ParseError:
             st = "PERR"
@@ -797,6 +810,63 @@ elif which == "import-under-core-name":
     expect("WSP", ok(P.Rule("WSP"), " ") and not ok(P.Rule("WSP"), "t"))
     expect("ALPHA / HEXDIG", ok(P.Rule("ALPHA"), "q") and ok(P.Rule("HEXDIG"), "f") and not ok(P.Rule("HEXDIG"), "t"))
     expect("the reader still reads repeats", ok(type("E", (P.Rule,), {}).create('z = 3*7"a"'), "aaaa"))
+elif which == "non-ascii-names":
+    # rule names given through the Python API: case-insensitive means str.casefold(), for every lookup path
+    A = type("A", (P.Rule,), {})
+    d = P.Literal("x")
+    r = A("stra\u00dfe", d)
+    expect("STRASSE finds strasse-with-sharp-s", A("STRASSE") is r and A.get("Strasse") is r and A.get("stra\u017f\u017fe") is r)
+    expect("one rule listed", len([x for x in A.rules() if x.name.casefold() == "strasse"]) == 1)
+    s2 = A("\u03a3\u03af\u03c3\u03c5\u03c6\u03bf\u03c2", d)
+    expect("final sigma", A("\u03c3\u03af\u03c3\u03c5\u03c6\u03bf\u03c3") is s2)
+    k = A("\u212aelvin", d)
+    expect("kelvin sign", A("kelvin") is k and A.get("KELVIN") is k)
+    expect("core through look-alike", A("\u017fP") is P.Rule("SP") and P.Rule("\u017fp") is P.Rule("SP") and hasattr(P.Rule("SP"), "definition"))
+elif which == "class-machinery":
+    # grammar classes under a user base class / mixin that overrides __init_subclass__ without calling super(), and under a metaclass:
+    # still one namespace per class
+    class Plugin:
+        registry = []
+        def __init_subclass__(cls, **kw):
+            Plugin.registry.append(cls)          # the usual plugin-registry idiom: no super().__init_subclass__()
+    class Base(Plugin, P.Rule):
+        pass
+    class G1(Base):
+        pass
+    class G2(Base):
+        pass
+    class G3(P.Rule, Plugin):
+        pass
+    class Meta(type(P.Rule)):
+        pass
+    G4 = Meta("G4", (P.Rule,), {})
+    G1.create('item = "one"'); G2.create('item = "two"'); G3.create('item = "three"'); G4.create('item = "four"')
+    for K, w in ((G1, "one"), (G2, "two"), (G3, "three"), (G4, "four")):
+        expect(K.__name__ + " has its own item", ok(K("item"), w) and sum(ok(K("item"), x) for x in ("one", "two", "three", "four")) == 1)
+    expect("distinct objects", len({id(K("item")) for K in (G1, G2, G3, G4)}) == 4)
+    expect("base classes stay empty", Base.get("item") is None and P.Rule.get("item") is None)
+    expect("listing", [r.name for r in G1.rules()] == ["item"] and [r.name for r in G2.rules()] == ["item"])
+elif which == "grammar-attribute":
+    # create() on a class that declares no `grammar`, then a decorator on ANOTHER class that declares none either: nothing travels
+    # through the inherited class attribute
+    A = type("A", (P.Rule,), {})
+    A.create('secret = "s3cret"'); A.create('other = "o"')
+    before = list(getattr(P.Rule, "grammar", []) or [])
+    B = type("B", (P.Rule,), {})
+    try:
+        load_grammar_rules([("tok", A("other"))])(B)
+    except Exception as e:
+        bad.append("decorator on a class without grammar raised " + type(e).__name__)
+    expect("B did not get A's rules", B.get("secret") is None)
+    expect("base class attribute untouched", list(getattr(P.Rule, "grammar", []) or []) == before)
+elif which == "incremental-then-import":
+    # a rule built with "=" and two "=/" in class A, imported into class B (sharing the definition), extended there again: A is unaffected
+    A = type("A", (P.Rule,), {}); B = type("B", (P.Rule,), {})
+    A.create('x = "a"'); A.create('x =/ "b"'); A.create('x =/ "c"')
+    B("x", A("x").definition)
+    B.create('x =/ "d"'); B.create('x =/ "e"')
+    expect("A unchanged", all(ok(A("x"), t) for t in "abc") and not ok(A("x"), "d") and not ok(A("x"), "e"))
+    expect("B extended", all(ok(B("x"), t) for t in "abcde"))
 json.dump(bad, sys.stdout)
 '''
 
@@ -804,7 +874,8 @@ json.dump(bad, sys.stdout)
 def run_c10_fixed():
     """hand-made histories, each in a fresh interpreter; the expectations are invariants of the unchanged library"""
     out = []
-    for which in ("same-file-two-classes", "get-with-default", "import-under-core-name"):
+    for which in ("same-file-two-classes", "get-with-default", "import-under-core-name", "non-ascii-names", "class-machinery", "grammar-attribute",
+                  "incremental-then-import"):
         p = subprocess.run([sys.executable, "-c", C10_FIXED, which], capture_output=True, text=True, check=False,
                            cwd=tempfile.gettempdir())
         if p.returncode != 0:
@@ -904,7 +975,7 @@ def main():
         mism, stats = run_c10(cases)
         if a.seed % 100 == 0 or a.seed < 100:
             fx = run_c10_fixed()
-            stats["fixed_histories"] = 3
+            stats["fixed_histories"] = 7
             mism = fx + mism
         samples = [{"scenario": c["scenario"], "history_starts_at": c["mark"]} for c in cases[:3]]
         viol = [{"what": m["what"], "identity": m["kind"] if m["kind"] in ("shadow-base-class-name", "import-sharing")
